@@ -159,7 +159,7 @@ def variant(draw, base_spec, all_specs) -> tuple[str, str]:
                                  "invalid_header", "invalid_dup_tempo", "invalid_midway", "invalid_midway",
                                  "song_dup", "song_dup", "song_perm", "same", "unrelated", "same_size", "same_size",
                                  "twin_track", "twin_track", "twin_events", "unknown_section", "unknown_section",
-                                 "fewer_sections", "other_headers"]))
+                                 "fewer_sections", "other_headers", "sync_extreme", "sync_extreme"]))
     spec = copy.deepcopy(base_spec)
     if kind == "res":
         res = spec["res"]
@@ -214,6 +214,15 @@ def variant(draw, base_spec, all_specs) -> tuple[str, str]:
         k = draw(st.integers(0, len(hs) - 1))
         spec["tracks"] = {hs[(k + 7 * j) % len(hs)]: items for j, items in enumerate(spec["tracks"].values())}
         spec.pop("order", None)
+    elif kind == "sync_extreme":
+        # corner values in [SyncTrack] (whatever a parse learns from one chart must not colour the next):
+        # time-signature exponents up to 16, numerators 0 / 255, extreme tempos, anchors
+        last = max(it[0] for it in spec["sync"])
+        spec["sync"] = list(spec["sync"]) + [
+            [last + 1, "TS", draw(st.sampled_from([7, 0, 255, 3])), draw(st.sampled_from([7, 8, 16, 0, 6]))],
+            [last + 2, "TS", 4, draw(st.sampled_from([None, 3, 7]))],
+            [last + 3, "B", draw(st.sampled_from([1, 10 ** 9, 999, 120000]))],
+            [last + 3, "A", draw(st.sampled_from([0, 1, 10 ** 12]))]]
     elif kind == "same_size":
         # another chart whose text has exactly the same length (one lane digit changed)
         for h, items in spec["tracks"].items():
